@@ -144,7 +144,7 @@ def gen_true(rng, family, wide=False):
     span = float(rng.uniform(6.0, 8.0))
     lo = float(rng.uniform(-3.0, 0.0)) if not wide else float(rng.uniform(-4.0, 1.0))
     f_lo, f_hi = 10.0**lo, 10.0 ** (lo + span)
-    ppd = int(rng.choice([8, 10, 15]))
+    ppd = int(rng.choice([6, 8, 10]))
     S = _logu(rng, 1.0, 1e4) if not wide else _logu(rng, 1e-2, 1e6)
 
     def R():  # comparable resistances: every arc is a visible share of the total
